@@ -189,6 +189,20 @@ func driveSchnorr(c *ctx) {
 		ssk := bitcoin.NewSchnorrPrivateKeyFromECDSA(ek)
 		c.E("schnorr.FromECDSA", "d", h32(d), "bytes", hx(ssk.PublicKey().Bytes()), "point", hx(ssk.PublicKey().Point().UncompressedBytes()),
 			"pubfromecdsa", hx(spk.Bytes()), "pubfromecdsa_point", hx(spk.Point().UncompressedBytes()), "skbytes", hx(ssk.Bytes()), "dneg", hx(bitcoin.VerifSchnorrD(ssk)))
+		{ // deriving from the same ECDSA key object AGAIN leaves the keys derived earlier (and the new ones) exactly as specified
+			ssk2 := bitcoin.NewSchnorrPrivateKeyFromECDSA(ek)
+			spk2 := bitcoin.NewSchnorrPublicKeyFromECDSA(ek.PublicKey())
+			c.E("schnorr.FromECDSA", "d", h32(d), "bytes", hx(ssk.PublicKey().Bytes()), "point", hx(ssk.PublicKey().Point().UncompressedBytes()),
+				"pubfromecdsa", hx(spk.Bytes()), "pubfromecdsa_point", hx(spk.Point().UncompressedBytes()), "skbytes", hx(ssk.Bytes()), "dneg", hx(bitcoin.VerifSchnorrD(ssk)), "again", 1)
+			c.E("schnorr.FromECDSA", "d", h32(d), "bytes", hx(ssk2.PublicKey().Bytes()), "point", hx(ssk2.PublicKey().Point().UncompressedBytes()),
+				"pubfromecdsa", hx(spk2.Bytes()), "pubfromecdsa_point", hx(spk2.Point().UncompressedBytes()), "skbytes", hx(ssk2.Bytes()), "dneg", hx(bitcoin.VerifSchnorrD(ssk2)), "again", 2)
+			var a32 [32]byte
+			m := []byte("derived-twice")
+			if sg, err := bitcoin.VerifSignSchnorr(&a32, ssk2, m); err == nil {
+				verify(ssk.PublicKey(), m, sg, false)
+				verify(spk, m, sg, false)
+			}
+		}
 		{ // the key derived from the ECDSA PUBLIC key must verify what the key derived from the ECDSA PRIVATE key signs
 			var a32 [32]byte
 			m := []byte("from-ecdsa")
